@@ -47,6 +47,7 @@ SHAPES: List[Dict[int, List[int]]] = [
     {1: [], 2: [1], 3: [2], 4: [3, 1]},                               # merge with ancestor
     {1: [], 2: [1], 3: [2, 1], 4: [3], 5: [4, 2]},                    # redundant merges
     {1: []},                                                          # single commit
+    {1: [], 2: [1], 3: [1], 4: [3]},                                  # small fork, not merged (two releases can share the head of one line)
 ]
 
 
@@ -346,7 +347,7 @@ def jobs(tier: str) -> List[Job]:
     js = []
     for si in range(len(SHAPES)):
         js.append(Job(__name__, "h_history", shard={"shape": si, "releases": 1}, budget_s=1500 if t else 110, label=f"history:shape{si}:1release", must_exhaust=True))
-    for si in (range(len(SHAPES)) if t else (0, 1, 3, 6, 9, 13)):
+    for si in (range(len(SHAPES)) if t else (0, 1, 3, 6, 9, 13, 16)):
         if len(SHAPES[si]) <= (6 if t else 5):
             js.append(Job(__name__, "h_history", shard={"shape": si, "releases": 2, "time_profiles": [0, 1, 2]}, budget_s=3000 if t else 110, label=f"history:shape{si}:2releases", must_exhaust=not t))
     js.append(Job(__name__, "h_branch_order", shard={}, budget_s=300 if t else 100, label="branch-order:symbolic", must_exhaust=True))
